@@ -14,12 +14,18 @@
                     1012-1051) with the per-class `add_node` given by `succOf`;
   * `graphAll`    = `GraphManager.register/graph_all` (1363-1440).
 
+  The guards of the interface-to-implementation links of `ProcNode.__init__` (truthiness,
+  `isinstance`, `visible`) are not written here: `targets` consults the decision table
+  `C13Gen.ifaceRules`, regenerated from the working tree by translate/c13.py on every run.
+
   Sets are lists; iteration order inside a hop (`sorted(nodes)`) is not modelled,
   observations are compared as sets.  Nodes are natural numbers: the index of the
   entity in the table handed over by the harness (one index per node `ident`).
 -/
 import FordModel.Basic.Chars
+import FordModel.Generated.C13
 namespace Ford.Graph
+open Ford.C13Gen (IfaceRule ifaceRules)
 
 abbrev Node := Nat
 
@@ -63,9 +69,14 @@ structure Ent where
   calls : List Node := []
   /-- `getattr(obj, "bindings", [])` -/
   bindings : List Node := []
-  /-- `[m.procedure for m in obj.modprocs if m.procedure]` -/
+  /-- row of the generated table `C13Gen.ifaceRules` that describes the Python class of the object
+      (`NoneType`, `False`, `True`, `str`, then the classes of ford.sourceform) -/
+  cls : Nat := 0
+  /-- `[m.procedure for m in obj.modprocs]`, unfiltered: the specific procedures of a generic
+      interface exactly as `correlate` left them (an unmatched one is an entity of class `NoneType`) -/
   modprocs : List Node := []
-  /-- `obj.procedure.module` of a module-procedure interface (when str / procedure) -/
+  /-- `obj.procedure.module` of a `FortranModuleProcedureInterface`, unfiltered: the implementing
+      procedure, or an entity of class `False` / `True` when none was matched -/
   impl : Option Node := none
   /-- source files of the `deplist` entries of the program units of a file (≠ the file) -/
   deps : List Node := []
@@ -144,6 +155,24 @@ def link (nd : NodeData) (a : Node) (rt : Rel × Node) : NodeData :=
 
 def optList (o : Option Node) : List Node := match o with | some a => [a] | none => []
 
+/-- the row of the decision table for class index `c` (nothing is linked for an unknown class) -/
+def ruleOfIn (rules : List IfaceRule) (c : Nat) : IfaceRule := rules.getD c { name := "" }
+
+/-- guard of the loop over `obj.modprocs`: is the specific procedure `m` linked? -/
+def specificLinked (rules : List IfaceRule) (tab : Table) (m : Node) : Bool :=
+  let r := ruleOfIn rules (ent tab m).cls
+  if (ent tab m).visible then r.modproc else r.modprocHidden
+
+/-- guard of the `obj.procedure.module` branch: is the implementation `m` linked? -/
+def implLinked (rules : List IfaceRule) (tab : Table) (m : Node) : Bool :=
+  let r := ruleOfIn rules (ent tab m).cls
+  if (ent tab m).visible then r.impl else r.implHidden
+
+/-- the interface-to-implementation links of an interface entity, under a given decision table -/
+def ifaceTargets (rules : List IfaceRule) (tab : Table) (i : Node) : List Node :=
+  ((ent tab i).modprocs.filter (specificLinked rules tab))
+    ++ ((optList (ent tab i).impl).filter (implLinked rules tab))
+
 /-- what the constructor of the node of `e` links to, in source order -/
 def targets (tab : Table) (i : Node) : List (Rel × Node) :=
   let e := ent tab i
@@ -157,10 +186,7 @@ def targets (tab : Table) (i : Node) : List (Rel × Node) :=
   | .proc =>
     e.uses.map (Rel.uses, ·)
       ++ (callNodes tab (e.calls ++ e.bindings)).map (Rel.call, ·)
-      ++ (if e.isIface then
-            ((e.modprocs.filter fun m => (ent tab m).visible)
-              ++ ((optList e.impl).filter fun m => (ent tab m).visible)).map (Rel.iface, ·)
-          else [])
+      ++ (if e.isIface then (ifaceTargets ifaceRules tab i).map (Rel.iface, ·) else [])
   | .prog => e.uses.map (Rel.uses, ·) ++ (callNodes tab e.calls).map (Rel.call, ·)
   | .block => e.uses.map (Rel.uses, ·)
   | .file => e.deps.map (Rel.dep, ·)
